@@ -82,7 +82,8 @@ def conclude(prop, tier, seed, mod, results, dead, wall):
     monitors = {}
     samples = []
     violations = []
-    inconclusive = list(dead)
+    inconclusive = list(dead)   # structural: a worker died / watchdog on a whole shard / threshold unmet / harness error
+    case_inconclusive = []      # single cases whose watchdog fired (not observed; reported, tolerated if isolated)
     m3_notes = []
     case_errors = 0
     for r in results:
@@ -93,7 +94,10 @@ def conclude(prop, tier, seed, mod, results, dead, wall):
         samples.extend(r['samples'])
         violations.extend(r['violations'])
         for i in r['inconclusive']:
-            inconclusive.append(i)
+            if isinstance(i, dict) and i.get('why') == 'harness exception':
+                inconclusive.append(i)
+            else:
+                case_inconclusive.append(i)
         m3_notes.extend(r.get('m3_notes', []))
         case_errors += r.get('case_errors', 0)
     samples = samples[:6]
@@ -120,6 +124,12 @@ def conclude(prop, tier, seed, mod, results, dead, wall):
         if got < minimum:
             inconclusive.append('monitor %s observed %d < required %d' % (name, got, minimum))
 
+    n_case_inc = monitors.get('inconclusive_cases', 0) or len(case_inconclusive)
+    # isolated inconclusive cases (a watchdog fired on a loaded machine) are not a verdict on the property and do not
+    # make the whole run inconclusive; more than a handful does
+    if n_case_inc > max(3, evaluations // 500):
+        inconclusive.append('%d cases were inconclusive (e.g. %s)' % (n_case_inc, json.dumps(common.jsonable(
+            case_inconclusive[:2]))[:600]))
     print('%s %s seed=%d: %d executions, %d distinct classes, %.1fs' % (prop, tier, seed, evaluations,
                                                                            len(classes), wall))
     for k in sorted(monitors):
@@ -141,6 +151,8 @@ def conclude(prop, tier, seed, mod, results, dead, wall):
             'known_findings_hit': {k: len(v) for k, v in known_hits.items()},
             'known_findings_witnesses': _sum_counts(results),
             'inconclusive': common.jsonable(inconclusive[:10]),
+            'inconclusive_cases_not_observed': n_case_inc,
+            'inconclusive_cases_sample': common.jsonable(case_inconclusive[:5]),
             'cross_property_m3_notes': m3_notes[:5],
             'harness_case_errors': case_errors,
         },
@@ -191,6 +203,9 @@ def conclude(prop, tier, seed, mod, results, dead, wall):
         for i in inconclusive[:10]:
             print('INCONCLUSIVE property=%s reason=%s' % (prop, json.dumps(common.jsonable(i))[:1500]))
         return common.EXIT_INCONCLUSIVE
+    if n_case_inc:
+        print('NOT-OBSERVED property=%s %d isolated cases were inconclusive (watchdog) and are not part of the verdict'
+              % (prop, n_case_inc))
     print('HELD property=%s on everything observed' % prop)
     return common.EXIT_HELD
 
